@@ -94,6 +94,9 @@ def run(ctx):
         if kind in (0, 1) and rng.random() < 0.3:
             s, _dtag = zoo.derive(rng, s)                       # a sample in the middle of an analysis
             D = s.shape[1]
+        if kind in (0, 1) and s.shape[0] and rng.random() < 0.2:
+            s, _atag = zoo.arith(rng, s)                        # values that went through arithmetic before (fractional values)
+            ctx.counters['chk:arith-derived'] += 1
         k = int(rng.integers(1, min(D, 4) + 1))
         covered = [int(x) for x in rng.permutation(D)[:k]]
         cl = curves(rng, k)
